@@ -40,7 +40,9 @@ CAT_KINDS_R = ["obj", "obj", "str", "str_sp", "str_comma", "list", "tuple", "arr
 CAT_KINDS_L = ["str", "str_sp", "list", "tuple", "list_bool", "str_comma"]
 BAD_NEW = ["two", "neg", "half", "str2", "stra", "2d", "none", "complex", "nan", "3d", "str2d", "strempty",
            "mixed_bad", "big", "strneg", "strfloat", "row2d", "col2d", "nest3d", "tuple_of_list", "ones_1x4", "arr_1x1",
-           "frac_trunc", "wrap256", "neg_half", "inf", "inf_scalar", "neginf", "inf32", "str_nl", "str_tab", "str_cr"]
+           "frac_trunc", "wrap256", "neg_half", "inf", "inf_scalar", "neginf", "inf32", "str_nl", "str_tab", "str_cr",
+           "cplx_tiny", "cplx_tiny_list", "cplx_tiny_scalar", "cplx64_tiny", "cplx_tiny_str", "cplx_tiny0", "almost1",
+           "almost0", "f32_almost1"]
 BAD_CAT = ["two", "neg", "half", "2d", "str2", "stra", "scalar_obj", "dict", "none", "str_nl", "str_tab"]
 
 
@@ -115,7 +117,8 @@ def generate(seed, tier):
                         "dom": rng.choice(["nonneg", "nonneg", "nonneg_int", "real", "complex"]), "noise": rng.random() < 0.5,
                         "thr": rng.choice(["pyfloat", "pyint", "npfloat", "list", "array", "len1"]),
                         "cmp": rng.choice([">", "<"]), "tie": rng.random() < 0.2,
-                        "scale": rng.choice([1, 1, 1, 1, 1, 1, 1e-200, 1e200, 1e-170, 1e160, 5e9])})
+                        "scale": rng.choice([1, 1, 1, 1, 1, 1, 1e-200, 1e200, 1e-170, 1e160, 5e9]),
+                        "mism": rng.choice([0, 0, 0, 0, 0, 0, 1, 2, -1, 7])})
         elif k == "bad_new":
             ops.append({"op": "bad_new", "what": rng.choice(BAD_NEW)})
         elif k == "bad_cat":
@@ -207,6 +210,11 @@ def _bad_value(what):
         "tuple_of_list": ([1, 0, 1],), "ones_1x4": np.ones((1, 4)), "arr_1x1": np.zeros((1, 1), dtype=int),
         "frac_trunc": [0, 1.9, 1], "wrap256": [0, 256, 1], "neg_half": [-0.5, 1], "inf": [0, float("inf"), 1],
         "inf_scalar": float("inf"), "neginf": [float("-inf")], "inf32": np.array([np.inf, 1], dtype=np.float32),
+        # elements that are not exactly 0 or 1, by less than common "close enough" tolerances
+        "cplx_tiny": np.array([1 + 1e-15j, 0]), "cplx_tiny_list": [0, 1 + 1e-15j], "cplx_tiny_scalar": 1 + 1e-300j,
+        "cplx64_tiny": np.array([1 + 1e-6j, 0], dtype=np.complex64), "cplx_tiny_str": "1+1e-15j 0",
+        "cplx_tiny0": np.array([1e-20j, 1]), "almost1": [0, 1 - 1e-16, 1], "almost0": [1e-300, 1],
+        "f32_almost1": np.array([1 + 2e-7, 0], dtype=np.float32),
         "str_nl": "000011110000\n", "str_tab": "0101\t0", "str_cr": "01\r\n10", "str_plus": "+1 0 1", "str_dot": "1.0 0.0",
     }[what]
 
@@ -540,6 +548,26 @@ class Machine:
         if self.frozen:
             seams.set_writeable([x.signal, x.noise, thr if isinstance(thr, np.ndarray) else None], False)
         what = f"compare/{op['cmp']}/{dom}/{tk}"
+        mism = op.get("mism", 0)
+        if mism and tk in ("list", "array") and n + mism >= 2:
+            # a threshold vector of another length: refusing is documented; whatever is returned must still have
+            # the signal's length (a length-1 vector is a scalar threshold and is exercised as "len1")
+            m = n + mism
+            tl = np.resize(thr_arr, m).astype(float)
+            tl = tl.tolist() if tk == "list" else (tl if op["dseed"] % 3 else self.ES(tl))
+            try:
+                res = (x > tl) if op["cmp"] == ">" else (x < tl)
+            except (ValueError, TypeError) as e:
+                self.rec.fault("failed_call")
+                self.rec.sig("compare", "mism", _lenclass(n), type(e).__name__)
+                return type(e).__name__
+            except Exception as e:
+                raise Violation("C15/reject", f"{what}: threshold of length {m} vs {n} samples raised {e!r}", what)
+            self._valid(res, what)
+            if len(res) != n:
+                raise Violation("C15/compare", f"{what}: result has {len(res)} bits for a {n}-sample signal "
+                                               f"(threshold of length {m})", what)
+            return "mism-accepted"
         try:
             res = (x > thr) if op["cmp"] == ">" else (x < thr)
         except Exception as e:
